@@ -73,6 +73,16 @@ uint8_t *s_nw_reserve(void *, size_t);
 int s_nw_consume(void *, size_t);
 int s_nw_write(void *, const uint8_t *, size_t);
 void s_nw_free(void *);
+/* addresses / formatting */
+void *s_resolve(const char *);            /* struct sock_addr ** or NULL */
+void s_freelist(void *);
+void *s_addr_dup(void *sas, int i);       /* dup of sas[i] */
+void s_addr_free(void *);
+int s_addr_cmp(void *a, void *sas, int i);
+int s_addr_serialize(void *sas, int i, uint8_t **buf, size_t *len);
+void *s_addr_deserialize(const uint8_t *buf, size_t len);
+char *s_addr_pretty(void *sas, int i);
+char *s_humansize(uint64_t);
 /* http (no allocation in the shim: one request at a time, static storage) */
 struct s_resp { int status; size_t nheaders; size_t bodylen; uint8_t *body; };
 typedef int (*s_http_cb)(void *, const struct s_resp *);
